@@ -28,6 +28,7 @@ pub fn run_stream(ctx: &mut Ctx, name: &str) {
 		"hist" => crate::hist::hist_stream(ctx),
 		"like" => crate::like::like_stream(ctx),
 		"bulk" => bulk_stream(ctx),
+		"dvl" => dvl_stream(ctx),
 		"append" => crate::append::append_stream(ctx),
 		"utf8" => utf8_stream(ctx),
 		other => panic!("unknown stream {}", other),
@@ -2246,6 +2247,143 @@ fn bulk_stream(ctx: &mut Ctx) {
 	bulk_for::<i128>(ctx, "i128");
 	bulk_for::<f32>(ctx, "f32");
 	bulk_for::<f64>(ctx, "f64");
+}
+
+// ---------------------------------------------------------------------------------------------
+// The public `decode_vec_with_len` called directly, with any length
+// ---------------------------------------------------------------------------------------------
+
+/// Forwards everything and counts the `on_before_alloc_mem` announcements it lets through.
+struct HookCount<I> {
+	inner: I,
+	n: usize,
+	total: usize,
+}
+impl<I: Input> Input for HookCount<I> {
+	fn remaining_len(&mut self) -> Result<Option<usize>, parity_scale_codec::Error> {
+		self.inner.remaining_len()
+	}
+	fn read(&mut self, into: &mut [u8]) -> Result<(), parity_scale_codec::Error> {
+		self.inner.read(into)
+	}
+	fn read_byte(&mut self) -> Result<u8, parity_scale_codec::Error> {
+		self.inner.read_byte()
+	}
+	fn descend_ref(&mut self) -> Result<(), parity_scale_codec::Error> {
+		self.inner.descend_ref()
+	}
+	fn ascend_ref(&mut self) {
+		self.inner.ascend_ref()
+	}
+	fn on_before_alloc_mem(&mut self, size: usize) -> Result<(), parity_scale_codec::Error> {
+		self.inner.on_before_alloc_mem(size)?;
+		self.n += 1;
+		self.total = self.total.saturating_add(size);
+		Ok(())
+	}
+}
+
+fn dvl_case<T: Cat>(ctx: &mut Ctx, name: &str, len: usize, bs: &[u8]) {
+	use parity_scale_codec::decode_vec_with_len;
+	for kind in ["slice", "io"] {
+		let (r, m) = crate::alloc::measure(|| {
+			catch_unwind(AssertUnwindSafe(|| {
+				if kind == "slice" {
+					let mut i = HookCount { inner: &bs[..], n: 0, total: 0 };
+					let r = decode_vec_with_len::<T, _>(&mut i, len);
+					(r, i.inner.len(), i.n, i.total)
+				} else {
+					let mut i = HookCount { inner: UnknownLenInput { data: bs, pos: 0 }, n: 0, total: 0 };
+					let r = decode_vec_with_len::<T, _>(&mut i, len);
+					(r, bs.len() - i.inner.pos, i.n, i.total)
+				}
+			}))
+		});
+		// oracle (C09): whatever `len` says, what is requested is bounded by the bytes supplied
+		let bound = PREALLOC.max(MEM_PER_INPUT_BYTE * bs.len()) + SLACK;
+		if m.max_request > bound || m.peak_live > PREALLOC + MEM_PER_INPUT_BYTE * bs.len() + SLACK {
+			ctx.oracle_fail("C09", format!("decode_vec_with_len::<{}>(.., {}) over a {} of {} bytes: largest request {} bytes, peak {} live bytes", name, len, kind, bs.len(), m.max_request, m.peak_live));
+		}
+		let ans = match r {
+			Ok((Ok(v), rem, n, total)) => {
+				if v.len() != len {
+					ctx.oracle_fail("C03", format!("decode_vec_with_len::<{}>(.., {}) returned {} elements", name, len, v.len()));
+				}
+				format!("ok {} {} hooks={}/{}", val_string(&v, true), rem, n, total)
+			},
+			Ok((Err(_), ..)) => "err".into(),
+			Err(_) => "panic".into(),
+		};
+		ctx.emit("dvl", name, &format!("dvl {} {} {} {}", kind, len, <Vec<T>>::ty(4), hex_or_dash(bs)), &ans);
+	}
+}
+
+fn dvl_for<T: Cat>(ctx: &mut Ctx, name: &'static str, bulk: bool) {
+	let mut g = G::new(ctx.seed ^ 0xD71 ^ (name.len() as u64) << 8, 3);
+	let sz = core::mem::size_of::<T>().max(1);
+	let c = 16384 / sz;
+	// lengths that match the data, and lengths that do not
+	let mut lens = vec![0usize, 1, 2, 5, c - 1, c, c + 1, 2 * c, 2 * c + 1];
+	if ctx.tier_thorough {
+		lens.extend_from_slice(&[3 * c - 1, 3 * c + 7, 4 * c]);
+	}
+	for &n in &lens {
+		let n = if bulk { n } else { n.min(3000) };
+		let mut bs = vec![];
+		for _ in 0..n {
+			T::gen(&mut g).encode_to(&mut bs);
+		}
+		dvl_case::<T>(ctx, name, n, &bs);
+		// one element more than the data holds, one fewer, data cut in the last element / chunk
+		dvl_case::<T>(ctx, name, n + 1, &bs);
+		if n > 0 {
+			dvl_case::<T>(ctx, name, n - 1, &bs);
+			if !bs.is_empty() {
+				dvl_case::<T>(ctx, name, n, &bs[..bs.len() - 1]);
+			}
+			if bs.len() > 16384 {
+				dvl_case::<T>(ctx, name, n, &bs[..16384]);
+				dvl_case::<T>(ctx, name, n, &bs[..16385]);
+			}
+		}
+	}
+	// lengths no `Compact<u32>` prefix can announce: the byte count overflows, or nearly does
+	if bulk || T::min_len() > 0 {
+		let data: Vec<u8> = (0..64u8).collect();
+		let m = usize::MAX / sz;
+		for len in [u32::MAX as usize, u32::MAX as usize + 1, 1usize << 40, m - 1, m, m.saturating_add(1), usize::MAX / 2 + 1, usize::MAX - 1, usize::MAX] {
+			if !bulk && len > (1 << 33) {
+				// element by element: the model would iterate; the bulk types decide this up front
+				continue;
+			}
+			dvl_case::<T>(ctx, name, len, &data);
+		}
+	}
+}
+
+fn dvl_stream(ctx: &mut Ctx) {
+	dvl_for::<u8>(ctx, "u8", true);
+	dvl_for::<i8>(ctx, "i8", true);
+	dvl_for::<u16>(ctx, "u16", true);
+	dvl_for::<i16>(ctx, "i16", true);
+	dvl_for::<u32>(ctx, "u32", true);
+	dvl_for::<i32>(ctx, "i32", true);
+	dvl_for::<u64>(ctx, "u64", true);
+	dvl_for::<i64>(ctx, "i64", true);
+	dvl_for::<u128>(ctx, "u128", true);
+	dvl_for::<i128>(ctx, "i128", true);
+	dvl_for::<f32>(ctx, "f32", true);
+	dvl_for::<f64>(ctx, "f64", true);
+	dvl_for::<bool>(ctx, "bool", false);
+	dvl_for::<Option<u8>>(ctx, "Option<u8>", false);
+	dvl_for::<parity_scale_codec::Compact<u32>>(ctx, "Compact<u32>", false);
+	dvl_for::<(u8, u16)>(ctx, "(u8,u16)", false);
+	dvl_for::<[u8; 3]>(ctx, "[u8;3]", false);
+	dvl_for::<Vec<u8>>(ctx, "Vec<u8>", false);
+	dvl_for::<String>(ctx, "String", false);
+	dvl_for::<Box<u32>>(ctx, "Box<u32>", false);
+	dvl_for::<()>(ctx, "()", false);
+	dvl_for::<crate::derived::TransCompact>(ctx, "TransCompact", false);
 }
 
 // ---------------------------------------------------------------------------------------------
